@@ -7,7 +7,9 @@ from fmtlib import layouts
 from purecheck import PureCheck
 
 ATTS = [fmtlib.PLAIN, fmtlib.RED, fmtlib.BOLD_ON_BLUE, [2, 0, 1, 0, 0, 0, 0, 0]]  # last: red with bold=False
-REPR_TEXTS = ["a'b", 'q"', "\\n", "\n\t", "Ｅ́", "x" * 3, "\x1b", "'\"", ""]
+REPR_TEXTS = ["a'b", 'q"', "\\n", "\n\t", "Ｅ́", "x" * 3, "\x1b", "'\"", "",
+              # texts a constructor might be tempted to normalise: CR LF, CR CR LF, a lone CR, trailing blanks, NUL, BOM, a tab
+              "l1\r\nl2", "a\r\r\nb", "\r", "x  ", " y", "\x00z", "\ufeffq", "a\tb", "A\u030a", "\u212b"]
 
 
 def fmtfuncs_ns():
